@@ -760,7 +760,7 @@ def _format_path(t_path):
 
     if path_parts or not cur_t_path:
         return 'Path(%s)' % ', '.join([_format_t(part)
-                                       if type(part) is list else repr(part)
+                                       if type(part) is list else bbrepr(part)
                                        for part in path_parts])
     return _format_t(cur_t_path)
 
@@ -1716,8 +1716,10 @@ def _format_t(path, root=T):
         if op == '.':
             prepr.append('.' + arg)
         elif op == '[':
-            if type(arg) is tuple:
+            if type(arg) is tuple and len(arg) > 1:
                 index = ", ".join([_format_slice(x) for x in arg])
+            elif type(arg) is tuple and any(type(x) is slice for x in arg):
+                index = _format_slice(arg[0]) + ","
             else:
                 index = _format_slice(arg)
             prepr.append(f"[{index}]")
